@@ -264,6 +264,203 @@ func lossOnlyBlanks(fset *token.FileSet, f *ast.File, name, field string) bool {
 	return ok && blanks == 1
 }
 
+// ---- the attempt loop of acquireTasks (DEPLOYMENT_ATTEMPTS_LOOP) and the offers round it waits for ------------------
+
+// attemptLoop finds the labelled `for` of acquireTasks.
+func attemptLoop(fd *ast.FuncDecl) (loop *ast.ForStmt, parent *ast.BlockStmt, at int) {
+	ast.Inspect(fd.Body, func(n ast.Node) bool {
+		b, ok := n.(*ast.BlockStmt)
+		if !ok {
+			return true
+		}
+		for i, st := range b.List {
+			if ls, ok := st.(*ast.LabeledStmt); ok && ls.Label.Name == "DEPLOYMENT_ATTEMPTS_LOOP" {
+				if f, ok := ls.Stmt.(*ast.ForStmt); ok {
+					loop, parent, at = f, b, i
+				}
+			}
+		}
+		return loop == nil
+	})
+	return
+}
+
+// maxAttempts: the loop is `for attemptCount := 0; attemptCount < MAX_ATTEMPTS_PER_DEPLOY_REQUEST; attemptCount++` and the
+// constant is an integer literal in schedulerstate.go; anything else gives 0.
+func maxAttempts(fset *token.FileSet, loop *ast.ForStmt, state *ast.File) int {
+	if loop == nil || loop.Init == nil || loop.Cond == nil || loop.Post == nil {
+		return 0
+	}
+	if exprStr(fset, loop.Init) != "attemptCount := 0" || exprStr(fset, loop.Cond) != "attemptCount < MAX_ATTEMPTS_PER_DEPLOY_REQUEST" ||
+		exprStr(fset, loop.Post) != "attemptCount++" {
+		return 0
+	}
+	val := 0
+	ast.Inspect(state, func(n ast.Node) bool {
+		vs, ok := n.(*ast.ValueSpec)
+		if !ok {
+			return true
+		}
+		for i, name := range vs.Names {
+			if name.Name == "MAX_ATTEMPTS_PER_DEPLOY_REQUEST" && i < len(vs.Values) {
+				if lit, ok := vs.Values[i].(*ast.BasicLit); ok && lit.Kind == token.INT {
+					fmt.Sscanf(lit.Value, "%d", &val)
+				}
+			}
+		}
+		return true
+	})
+	return val
+}
+
+func isAssign(fset *token.FileSet, st ast.Stmt, lhs, rhs string) bool {
+	as, ok := st.(*ast.AssignStmt)
+	return ok && as.Tok == token.ASSIGN && len(as.Lhs) == 1 && len(as.Rhs) == 1 &&
+		exprStr(fset, as.Lhs[0]) == lhs && exprStr(fset, as.Rhs[0]) == rhs
+}
+
+// attemptFacts reads the loop body:
+//
+//	resets      a top-level `deploymentSuccess = true` precedes the statement that hands the request to the scheduler
+//	            (`m.tasksToDeploy <- …`): the verdict on an attempt starts afresh
+//	onlyCrit    every `deploymentSuccess = false` before the `if deploymentSuccess` statement sits inside an `if` that
+//	            asks `.Critical == true`
+//	breaks      a top-level `if deploymentSuccess { …; break DEPLOYMENT_ATTEMPTS_LOOP }` (the break being its last
+//	            statement) follows, and after it the loop body only logs and sleeps
+func attemptFacts(fset *token.FileSet, loop *ast.ForStmt) (resets, onlyCrit, breaks bool) {
+	if loop == nil {
+		return
+	}
+	send, reset, ifAt := -1, -1, -1
+	for i, st := range loop.Body.List {
+		if s, ok := st.(*ast.SendStmt); ok && exprStr(fset, s.Chan) == "m.tasksToDeploy" && send < 0 {
+			send = i
+		}
+		if isAssign(fset, st, "deploymentSuccess", "true") && reset < 0 {
+			reset = i
+		}
+		if is, ok := st.(*ast.IfStmt); ok && is.Init == nil && exprStr(fset, is.Cond) == "deploymentSuccess" && ifAt < 0 {
+			ifAt = i
+			if n := len(is.Body.List); n > 0 {
+				if br, ok := is.Body.List[n-1].(*ast.BranchStmt); ok && br.Tok == token.BREAK && br.Label != nil &&
+					br.Label.Name == "DEPLOYMENT_ATTEMPTS_LOOP" {
+					breaks = true
+				}
+			}
+		}
+	}
+	resets = reset >= 0 && send >= 0 && reset < send
+	if ifAt < 0 {
+		return resets, false, false
+	}
+	for _, st := range loop.Body.List[ifAt+1:] {
+		if _, ok := st.(*ast.ExprStmt); !ok { // log call, time.Sleep
+			breaks = false
+		}
+	}
+	onlyCrit = true
+	for _, st := range loop.Body.List[:ifAt] {
+		var guarded []ast.Node // bodies of `if … .Critical == true`
+		ast.Inspect(st, func(n ast.Node) bool {
+			if is, ok := n.(*ast.IfStmt); ok && strings.Contains(exprStr(fset, is.Cond), ".Critical == true") {
+				guarded = append(guarded, is.Body)
+			}
+			return true
+		})
+		ast.Inspect(st, func(n ast.Node) bool {
+			as, ok := n.(ast.Stmt)
+			if !ok || !isAssign(fset, as, "deploymentSuccess", "false") {
+				return true
+			}
+			in := false
+			for _, g := range guarded {
+				if g.Pos() <= as.Pos() && as.End() <= g.End() {
+					in = true
+				}
+			}
+			if !in {
+				onlyCrit = false
+			}
+			return true
+		})
+	}
+	return
+}
+
+// failureDetaches: after the loop, `if !deploymentSuccess { … taskPtr.SetParent(nil) … err = TasksDeploymentError{…} }`, and
+// every `.SetTask(` of the function lies in an `if deploymentSuccess` block.
+func failureDetaches(fset *token.FileSet, fd *ast.FuncDecl, parent *ast.BlockStmt) bool {
+	if parent == nil {
+		return false
+	}
+	detaches := false
+	var okBlocks []ast.Node
+	ast.Inspect(fd.Body, func(n ast.Node) bool {
+		is, ok := n.(*ast.IfStmt)
+		if !ok {
+			return true
+		}
+		switch exprStr(fset, is.Cond) {
+		case "!deploymentSuccess":
+			b := exprStr(fset, is.Body)
+			if strings.Contains(b, "taskPtr.SetParent(nil)") && strings.Contains(b, "err = TasksDeploymentError{") {
+				detaches = true
+			}
+		case "deploymentSuccess":
+			okBlocks = append(okBlocks, is.Body)
+		}
+		return true
+	})
+	guarded := true
+	ast.Inspect(fd.Body, func(n ast.Node) bool {
+		c, ok := n.(*ast.CallExpr)
+		if !ok || !strings.HasSuffix(exprStr(fset, c.Fun), ".SetTask") {
+			return true
+		}
+		in := false
+		for _, b := range okBlocks {
+			if b.Pos() <= c.Pos() && c.End() <= b.End() {
+				in = true
+			}
+		}
+		if !in {
+			guarded = false
+		}
+		return true
+	})
+	return detaches && guarded
+}
+
+// roundAbandoned (scheduler.go): a descriptor whose machine has no offer is appended to descriptorsUndeployable in the
+// pre-processing, and the loop over the offers (the one that ends in offerWaitGroup.Wait()) runs only
+// `if len(descriptorsUndeployable) == 0`.
+func roundAbandoned(fset *token.FileSet, sched *ast.File) bool {
+	var guard *ast.IfStmt
+	ast.Inspect(sched, func(n ast.Node) bool {
+		is, ok := n.(*ast.IfStmt)
+		if ok && guard == nil && exprStr(fset, is.Cond) == "len(descriptorsUndeployable) == 0" &&
+			strings.Contains(exprStr(fset, is.Body), "offerWaitGroup.Wait()") {
+			guard = is
+		}
+		return true
+	})
+	if guard == nil {
+		return false
+	}
+	before := false
+	ast.Inspect(sched, func(n ast.Node) bool {
+		is, ok := n.(*ast.IfStmt)
+		if !ok || exprStr(fset, is.Cond) != "found" || is.Else == nil || is.Pos() > guard.Pos() {
+			return true
+		}
+		if strings.Contains(exprStr(fset, is.Else), "descriptorsUndeployable = append(descriptorsUndeployable, descriptor)") {
+			before = true
+		}
+		return true
+	})
+	return before
+}
+
 // GenFacts is the exported entry point (probe program: `c02probe -facts <repo>`).
 func GenFacts(repo string) (string, error) { return genFacts(repo) }
 
@@ -283,6 +480,20 @@ func genFacts(repo string) (string, error) {
 	srv, err := parse("core/server.go")
 	if err != nil {
 		return "", err
+	}
+	// the attempt loop: files that cannot be read give `false` / 0 facts, not an error
+	var maxAtt int
+	var attResets, attOnlyCrit, attBreaks, attDetaches, rndAbandoned bool
+	if acq := funcDecl(man, "Manager", "acquireTasks"); acq != nil {
+		loop, parent, _ := attemptLoop(acq)
+		if state, e := parse("core/task/schedulerstate.go"); e == nil {
+			maxAtt = maxAttempts(fset, loop, state)
+		}
+		attResets, attOnlyCrit, attBreaks = attemptFacts(fset, loop)
+		attDetaches = failureDetaches(fset, acq, parent)
+	}
+	if sched, e := parse("core/task/scheduler.go"); e == nil {
+		rndAbandoned = roundAbandoned(fset, sched)
 	}
 	tt, ct := funcDecl(man, "Manager", "transitionTasks"), funcDecl(man, "Manager", "configureTasks")
 	do, ce := funcDecl(conf, "ConfigureTransition", "do"), funcDecl(srv, "RpcServer", "ControlEnvironment")
@@ -316,6 +527,12 @@ func genFacts(repo string) (string, error) {
 	fmt.Fprintf(&b, "/-- core/server.go: ControlEnvironment does not store the result of TryTransition(NewGoErrorTransition(…)) in `err` -/\ndef goErrorKeepsErr : Bool := %v\n\n", k4)
 	fmt.Fprintf(&b, "/-- core/task/manager.go: in the multi-response branch of transitionTasks AND configureTasks the task behind a failed\n    target `k` is `m.GetTask(k.TaskId.Value)` (its only definition in the loop over `response.Errors()`), and\n    `Manager.GetTask` scans `m.roster.getTasks()` comparing `taskId` alone -/\ndef failedTargetLookupByTaskId : Bool := %v\n\n", l1 && l2 && getTaskComparesTaskIdOnly(fset, man))
 	fmt.Fprintf(&b, "/-- core/task/manager.go: HandleExecutorFailed / HandleAgentFailed write nothing of the roster tasks but\n    `t.executorId = \"\"` / `t.agentId = \"\"` (and the task's status); they do not change the roster -/\ndef lossOnlyBlanksIds : Bool := %v\n\n", lossOnlyBlanks(fset, man, "HandleExecutorFailed", "executorId") && lossOnlyBlanks(fset, man, "HandleAgentFailed", "agentId"))
+	fmt.Fprintf(&b, "/-- core/task/manager.go + schedulerstate.go: acquireTasks' loop is `for attemptCount := 0; attemptCount <\n    MAX_ATTEMPTS_PER_DEPLOY_REQUEST; attemptCount++` and the constant is this literal (0: shape not recognised) -/\ndef maxDeployAttempts : Nat := %d\n\n", maxAtt)
+	fmt.Fprintf(&b, "/-- core/task/manager.go: the body of DEPLOYMENT_ATTEMPTS_LOOP sets `deploymentSuccess = true` before it hands the\n    request to the scheduler: the verdict on an attempt does not depend on earlier attempts -/\ndef attemptResetsVerdict : Bool := %v\n\n", attResets)
+	fmt.Fprintf(&b, "/-- core/task/manager.go: inside the loop `deploymentSuccess = false` is only ever assigned under `.Critical == true` -/\ndef attemptFailsOnlyOnCritical : Bool := %v\n\n", attOnlyCrit)
+	fmt.Fprintf(&b, "/-- core/task/manager.go: `if deploymentSuccess { …; break DEPLOYMENT_ATTEMPTS_LOOP }`, then only logging and the pause -/\ndef attemptLoopBreaksOnSuccess : Bool := %v\n\n", attBreaks)
+	fmt.Fprintf(&b, "/-- core/task/manager.go: after the loop `if !deploymentSuccess` detaches the launched tasks (`SetParent(nil)`) and\n    returns a TasksDeploymentError; roles get their task (`SetTask`) only under `if deploymentSuccess` -/\ndef failedDeploymentDetaches : Bool := %v\n\n", attDetaches)
+	fmt.Fprintf(&b, "/-- core/task/scheduler.go: a descriptor whose machine_id has no offer becomes undeployable in the pre-processing, and\n    the offers are processed (tasks launched) only `if len(descriptorsUndeployable) == 0` -/\ndef roundAbandonedWhenUndeployable : Bool := %v\n\n", rndAbandoned)
 	b.WriteString("end Gen.C02\n")
 	return b.String(), nil
 }
